@@ -1,7 +1,9 @@
 (* tie A obligations for the loop / growth model *)
-From GR Require Import Base.Bytes Model.LoopModel Model.PosModel Gen.GenLoop.
+From GR Require Import Base.Bytes Model.LoopModel Model.PosModel Model.SparseModel Gen.GenLoop.
 Local Open Scope N_scope.
 (* the growth factor of the model is the one in the source; the loop limit the loader enforces is >= 1 (hypothesis of
    C02_pass_loop_bounded); the model's finalise fuel is the source's depth cut-off + 1 *)
 Lemma gen_loop_consts_agree : GenLoop.growth_factor = LoopModel.growth_factor /\ 1 <= GenLoop.min_max_loop /\ GenLoop.depth_cutoff + 1 = 101.
 Proof. repeat split; try reflexivity; discriminate. Qed.
+Lemma gen_sparse_chunk_agrees : GenLoop.sparse_chunk_bits = SparseModel.CHUNK.
+Proof. reflexivity. Qed.
